@@ -368,8 +368,14 @@ async fn run_case_async(ops: Vec<String>) -> Vec<(String, String)> {
         config,
         None,
     );
-    let agent_fut = async {
+    let agent_err: Arc<Mutex<Option<String>>> = Arc::new(Mutex::new(None));
+    let agent_err2 = agent_err.clone();
+    let agent_fut = async move {
         let r = task.run_agent().await;
+        match &r {
+            Err(e) => *agent_err2.lock().unwrap() = Some(format!("{:?}", e).replace(' ', "_")),
+            Ok(()) => *agent_err2.lock().unwrap() = Some("agent-returned-ok-early".to_string()),
+        }
         r.is_ok()
     };
     let links = async move { while link_rx.recv().await.is_some() {} };
@@ -387,14 +393,11 @@ async fn run_case_async(ops: Vec<String>) -> Vec<(String, String)> {
         drop(rig);
         out
     };
-    tokio::pin!(links);
-    let (agent_ok, out) = tokio::select! {
-        r = futures::future::join(agent_fut, driver) => r,
-        _ = &mut links => (false, vec![]),
-    };
+    let (agent_ok, out, _) = futures::future::join3(agent_fut, driver, links).await;
     results.extend(out);
     if !agent_ok {
-        results.push(("end".to_string(), "agent-failed".to_string()));
+        let why = agent_err.lock().unwrap().clone().unwrap_or_else(|| "links-channel-closed".to_string());
+        results.push(("end".to_string(), format!("agent-failed {}", why)));
     }
     results
 }
